@@ -42,7 +42,7 @@ WIDTH = {1: 1, 2: 1, 3: 2, 4: 4, 5: 8}
 
 def floors(tier):
     return {"key-by-name": 1200, "key-by-id": 1200, "list": 300, "parse-set": 300, "parse-get": 300,
-            "lookup": 1200, "limit": 6, "unknown-key": 100, "widths>=2": 200, "unknown-sibling": 3000, "after-failed-call": 100}
+            "lookup": 1200, "limit": 6, "unknown-key": 100, "widths>=2": 200, "unknown-sibling": 3000, "after-failed-call": 100, "keyid-lookup": 30000}
 
 
 def plan(tier, seed):
@@ -257,7 +257,7 @@ def check(case) -> core.Out:
                                             f"{[n for n, _ in tail][:5]}"))
             return out
         for (name, val), (kid, typ), it in zip(tail, res, items):
-            ok_names = names_of(kid) or [f"CFG_{hex(kid)}"]
+            ok_names = names_of(kid)[:1] or [f"CFG_{hex(kid)}"]  # (aliases: the first table entry)
             if name not in ok_names:
                 out.viol.append((key + "name", f"key {hex(kid)} exposed as {name!r}, expected {ok_names}"))
                 break
@@ -282,10 +282,38 @@ def check(case) -> core.Out:
             return out
         if tuple(a) != (kid, typ):
             out.viol.append((f"{PROP}|lookup|name2key", f"cfgname2key({name}) = {a}, table says {(hex(kid), typ)}"))
-        if b[0] not in names_of(kid) or b[1] != db()[b[0]][1] or db()[b[0]][0] != kid:
+        if b[0] != names_of(kid)[0] or b[1] != db()[b[0]][1] or db()[b[0]][0] != kid:
             out.viol.append((f"{PROP}|lookup|key2name", f"cfgkey2name({hex(kid)}) = {b}"))
         elif tuple(pyubx2.cfgname2key(b[0])) != (kid, b[1]):
             out.viol.append((f"{PROP}|lookup|roundtrip", f"{name} -> {hex(kid)} -> {b[0]} -> {pyubx2.cfgname2key(b[0])}"))
+        return out
+    if k == "keyid":
+        # ID -> name lookup for an arbitrary 32-bit ID, against the table read as data
+        kid = case["kid"]
+        out.classes = ["keyid-lookup"]
+        out.nontrivial = True
+        code = (kid >> 28) & 7
+        if (kid >> 28) not in WIDTH and not names_of(kid):
+            # reserved bit 31 set or size code outside 1..5: not a key ID of the
+            # domain the property quantifies over
+            out.classes = ["keyid-out-of-domain"]
+            out.nontrivial = False
+            return out
+        try:
+            got = ("ok", tuple(pyubx2.cfgkey2name(kid)))
+        except pyubx2.UBXMessageError:
+            got = ("refused",)
+        except Exception as err:  # noqa
+            got = ("raises", type(err).__name__)
+        nm = names_of(kid)
+        if nm:
+            want = ("ok", (nm[0], db()[nm[0]][1]))
+        elif code in WIDTH:
+            want = ("ok", (f"CFG_{hex(kid)}", f"X{WIDTH[code]:03d}"))
+        else:
+            want = ("refused",)
+        if got != want:
+            out.viol.append((f"{PROP}|lookup|keyid", f"cfgkey2name({hex(kid)}) -> {got}, table says {want}"))
         return out
     if k == "limit":
         helper, n = case["helper"], case["n"]
@@ -335,6 +363,10 @@ def run_shard(spec, ctx, acc):
             kid, typ = db()[name]
             case = {"kind": "lookup", "name": name}
             core.handle(acc, check(case), case, known)
+            # every single-bit neighbour of the key ID (documented or not)
+            for bit in range(32):
+                c2 = {"kind": "keyid", "kid": kid ^ (1 << bit)}
+                core.handle(acc, check(c2), c2, known)
             # undocumented *siblings*: same group and item, other size code
             if i % 3 == spec["part"] % 3 or tier != "quick":
                 for code in (1, 2, 3, 4, 5):
